@@ -362,15 +362,17 @@ theorem sfDistribute_cases (g : SfGauge) (d : DistData) (r : Option (SfGauge × 
 theorem sfTrigger_cases (g g' : SfGauge) (d : DistData) (x : Xfer) (sends : List Int) (recv : Int)
     (h : sfTrigger g d x = .ok (g', sends, recv)) :
     (∀ r ∈ sends, 0 ≤ r) ∧ 0 ≤ recv ∧ (0 < g.deposit → sumL sends ≤ g.deposit) ∧ (g.deposit ≤ 0 → sends = []) ∧
-    g'.deposit = g.deposit - sumL sends + recv ∧ g'.distributed = g.distributed + sumL sends ∧
-    ((g' = g ∧ recv = 0 ∧ sends = []) ∨ (x = .err ∧ recv = 0 ∧ g'.triggered = g.triggered) ∨
-     (∃ amt : Nat, x = .ok amt ∧ recv = amt ∧ g'.triggered = g.triggered + 1)) := by
+    g'.distributed = g.distributed + sumL sends ∧
+    ((g' = g ∧ recv = 0 ∧ sends = []) ∨
+     (x = .err ∧ recv = 0 ∧ g'.triggered = g.triggered ∧ g'.deposit = g.deposit - sumL sends) ∨
+     (∃ amt : Nat, x = .ok amt ∧ recv = amt ∧ g'.triggered = g.triggered + 1 ∧ g'.deposit = g.deposit - sumL sends + amt) ∨
+     (∃ amt : Nat, x = .moved amt ∧ recv = 0 ∧ g'.triggered = g.triggered + 1 ∧ g'.deposit = 0)) := by
   unfold sfTrigger at h
   split at h
   · cases h
   · injection h with h; injection h with h1 h2; injection h2 with h2 h3
     subst h1 h2 h3
-    exact ⟨by simp, Int.le_refl 0, by intro _; simp [sumL]; omega, by intro; rfl, by simp [sumL], by simp [sumL], Or.inl ⟨rfl, rfl, rfl⟩⟩
+    exact ⟨by simp, Int.le_refl 0, by intro _; simp [sumL]; omega, by intro; rfl, by simp [sumL], Or.inl ⟨rfl, rfl, rfl⟩⟩
   · rename_i g1 s1 hdist
     rcases sfDistribute_cases g d _ hdist with hnone | ⟨g1', s1', heq, hnn, hle, hemp, hd1, hd2, hd3⟩
     · cases hnone
@@ -381,21 +383,86 @@ theorem sfTrigger_cases (g g' : SfGauge) (d : DistData) (x : Xfer) (sends : List
         simp only at h
         injection h with h; injection h with h1 h2; injection h2 with h2 h3
         subst h1 h2 h3
-        exact ⟨hnn, Int.le_refl 0, hle, hemp, by omega, hd2, Or.inr (Or.inl ⟨rfl, rfl, hd3⟩)⟩
+        exact ⟨hnn, Int.le_refl 0, hle, hemp, hd2, Or.inr (Or.inl ⟨rfl, rfl, hd3, hd1⟩)⟩
       | ok amt =>
         simp only at h
         injection h with h; injection h with h1 h2; injection h2 with h2 h3
         subst h1 h2 h3
-        exact ⟨hnn, Int.natCast_nonneg _, hle, hemp, by simp only; omega, hd2, Or.inr (Or.inr ⟨amt, rfl, rfl, by simp only; omega⟩)⟩
+        exact ⟨hnn, Int.natCast_nonneg _, hle, hemp, hd2, Or.inr (Or.inr (Or.inl ⟨amt, rfl, rfl, by simp only; omega, by simp only; omega⟩))⟩
+      | moved amt =>
+        simp only at h
+        injection h with h; injection h with h1 h2; injection h2 with h2 h3
+        subst h1 h2 h3
+        exact ⟨hnn, Int.le_refl 0, hle, hemp, hd2, Or.inr (Or.inr (Or.inr ⟨amt, rfl, rfl, by simp only; omega, rfl⟩))⟩
+
+/-- swap-fee deposits are coins: never negative -/
+def SInv (l : Ledger) : Prop := ∀ s ∈ l.sfs, 0 ≤ s.deposit
+
+theorem sfTrigger_deposit_nonneg (g g' : SfGauge) (d : DistData) (x : Xfer) (sends : List Int) (recv : Int)
+    (h : sfTrigger g d x = .ok (g', sends, recv)) (hg : 0 ≤ g.deposit) :
+    0 ≤ g'.deposit ∧ g'.deposit ≤ g.deposit - sumL sends + recv := by
+  obtain ⟨hnn, hr, hle, hemp, _, hc⟩ := sfTrigger_cases g g' d x sends recv h
+  have hs : sumL sends ≤ g.deposit := by
+    by_cases hp : 0 < g.deposit
+    · exact hle hp
+    · have := hemp (by omega); subst this; simp [sumL]; omega
+  rcases hc with ⟨rfl, rfl, rfl⟩ | ⟨_, rfl, _, hd⟩ | ⟨amt, _, rfl, _, hd⟩ | ⟨amt, _, rfl, _, hd⟩
+  · simp [sumL]; omega
+  · omega
+  · omega
+  · omega
 
 /-- the ledger invariant: every gauge is within its schedule, and the module account covers the sum of all
 undistributed remainders (as a signed sum over gauges, swap-fee gauges and external programmes) -/
 def LInv (l : Ledger) : Prop :=
   (∀ g ∈ l.gauges, GInv g) ∧ remGauges l.gauges + remExts l.exts + remSfs l.sfs ≤ l.bal
 
-theorem stepB_inv (l l' : Ledger) (o : BOp) (h : stepB l o = .ok l') (hl : LInv l) : LInv l' := by
+theorem stepB_sinv (l l' : Ledger) (o : BOp) (h : stepB l o = .ok l') (hs : SInv l) : SInv l' := by
+  cases o with
+  | trigger i now d =>
+    simp only [stepB] at h
+    split at h
+    · injection h with h; subst h; exact hs
+    · split at h
+      · cases h
+      · injection h with h; subst h; exact hs
+  | extPay j pays =>
+    simp only [stepB] at h
+    split at h
+    · injection h with h; subst h; exact hs
+    · split at h <;> (injection h with h; subst h; exact hs)
+  | extDeactivate j =>
+    simp only [stepB] at h
+    split at h <;> (injection h with h; subst h; exact hs)
+  | sfArrive amt t =>
+    simp only [stepB] at h
+    injection h with h; subst h
+    intro s hsm
+    simp only [List.mem_append, List.mem_singleton] at hsm
+    rcases hsm with hsm | rfl
+    · exact hs s hsm
+    · exact Int.natCast_nonneg _
+  | sfTrigger i d x =>
+    simp only [stepB] at h
+    split at h
+    · injection h with h; subst h; exact hs
+    · rename_i g hgi
+      split at h
+      · cases h
+      · rename_i g' sends recv ht
+        injection h with h; subst h
+        intro s hsm
+        rcases mem_setAt _ _ _ _ hsm with hsm | rfl
+        · exact hs s hsm
+        · exact (sfTrigger_deposit_nonneg g s d x sends recv ht (hs g (List.mem_of_getElem? hgi))).1
+
+theorem stepB_inv (l l' : Ledger) (o : BOp) (h : stepB l o = .ok l') (hl : LInv l) (hs : SInv l) : LInv l' := by
   obtain ⟨hg, hb⟩ := hl
   cases o with
+  | sfArrive amt t =>
+    simp only [stepB] at h
+    injection h with h; subst h
+    exact ⟨hg, by simp only [remSfs_append]; omega⟩
   | sfTrigger i d x =>
     simp only [stepB] at h
     split at h
@@ -408,7 +475,8 @@ theorem stepB_inv (l l' : Ledger) (o : BOp) (h : stepB l o = .ok l') (hl : LInv 
         refine ⟨hg, ?_⟩
         simp only
         rw [remSfs_setAt _ _ _ _ hgi]
-        obtain ⟨hnn, _, _, _, hd, _, _⟩ := sfTrigger_cases g g' d x sends recv ht
+        obtain ⟨hnn, _, _, _, _, _⟩ := sfTrigger_cases g g' d x sends recv ht
+        have hd := (sfTrigger_deposit_nonneg g g' d x sends recv ht (hs g (List.mem_of_getElem? hgi))).2
         have hsb := (sendAll_bounds sends hnn l.bal).1
         omega
   | trigger i now d =>
@@ -456,17 +524,35 @@ theorem stepB_inv (l l' : Ledger) (o : BOp) (h : stepB l o = .ok l') (hl : LInv 
       simp only
       rw [remExts_setAt _ _ _ _ hx]; simp only; omega
 
-theorem runB_inv (l l' : Ledger) (os : List BOp) (h : runB l os = .ok l') (hl : LInv l) : LInv l' := by
+theorem runB_inv (l l' : Ledger) (os : List BOp) (h : runB l os = .ok l') (hl : LInv l) (hs : SInv l) : LInv l' ∧ SInv l' := by
   induction os generalizing l with
-  | nil => simp only [runB] at h; injection h with h; subst h; exact hl
+  | nil => simp only [runB] at h; injection h with h; subst h; exact ⟨hl, hs⟩
   | cons o os ih =>
     simp only [runB] at h
     split at h
     · cases h
     · rename_i l1 h1
-      exact ih l1 h (stepB_inv l l1 o h1 hl)
+      exact ih l1 h (stepB_inv l l1 o h1 hl hs) (stepB_sinv l l1 o h1 hs)
 
-theorem step_inv (l : Ledger) (o : Op) (hl : LInv l) : LInv (step l o) := by
+theorem step_sinv (l : Ledger) (o : Op) (hl : LInv l) (hs : SInv l) : SInv (step l o) := by
+  cases o with
+  | createGauge deposit total start now dur minDur aux funds => simp only [step]; split <;> exact hs
+  | createExt amount funds => simp only [step]; split <;> exact hs
+  | fund amount => simp only [step]; split <;> exact hs
+  | createSf =>
+    simp only [step]
+    intro s hsm
+    simp only [List.mem_append, List.mem_singleton] at hsm
+    rcases hsm with hsm | rfl
+    · exact hs s hsm
+    · exact Int.le_refl 0
+  | block ops =>
+    simp only [step]
+    split
+    · rename_i l' h; exact (runB_inv l l' ops h hl hs).2
+    · exact hs
+
+theorem step_inv (l : Ledger) (o : Op) (hl : LInv l) (hs : SInv l) : LInv (step l o) := by
   obtain ⟨hg, hb⟩ := hl
   cases o with
   | createSf =>
@@ -499,13 +585,15 @@ theorem step_inv (l : Ledger) (o : Op) (hl : LInv l) : LInv (step l o) := by
   | block ops =>
     simp only [step]
     split
-    · rename_i l' h; exact runB_inv l l' ops h ⟨hg, hb⟩
+    · rename_i l' h; exact (runB_inv l l' ops h ⟨hg, hb⟩ hs).1
     · exact ⟨hg, hb⟩
 
-theorem run_inv (l : Ledger) (ops : List Op) (hl : LInv l) : LInv (run l ops) := by
+theorem run_inv (l : Ledger) (ops : List Op) (hl : LInv l) (hs : SInv l) : LInv (run l ops) ∧ SInv (run l ops) := by
   induction ops generalizing l with
-  | nil => exact hl
-  | cons o os ih => exact ih (step l o) (step_inv l o hl)
+  | nil => exact ⟨hl, hs⟩
+  | cons o os ih => exact ih (step l o) (step_inv l o hl hs) (step_sinv l o hl hs)
+
+theorem empty_sinv : SInv Ledger.empty := by intro s hs; simp [Ledger.empty] at hs
 
 /-- every gauge a user managed to create has at least one epoch and a deposit of at least one unit per epoch -/
 def AccInv (l : Ledger) : Prop := ∀ g ∈ l.gauges, 1 ≤ g.total ∧ (g.total : Int) ≤ g.deposit
@@ -542,6 +630,9 @@ theorem stepB_acc (l l' : Ledger) (o : BOp) (h : stepB l o = .ok l') (hl : AccIn
     · split at h
       · cases h
       · injection h with h; subst h; exact hl
+  | sfArrive amt t =>
+    simp only [stepB] at h
+    injection h with h; subst h; exact hl
 
 theorem runB_acc (l l' : Ledger) (os : List BOp) (h : runB l os = .ok l') (hl : AccInv l) : AccInv l' := by
   induction os generalizing l with
